@@ -1139,6 +1139,15 @@ fn negatives(ctx: &mut Ctx, fix: &KeyFix, l: &Locked, budget: usize) {
             bits.push(b);
         }
     }
+    if fix.fmt == "m,m,m,m" {
+        // RSA: the last MPI (u) is recomputed by the library when the key is written; changes to the
+        // stored octets of u (and of p, q in front of it) must be noticed all the same
+        for k in (23usize..330).step_by(if budget > 2 { 5 } else { 13 }) {
+            if 8 * k < nbits {
+                bits.push(nbits - 8 * k + (k % 8));
+            }
+        }
+    }
     bits.sort_unstable();
     bits.dedup();
     for (i, b) in bits.iter().enumerate() {
